@@ -40,6 +40,7 @@ def run(chk):
         # --probe-debug is ignored by the harness; it tags the replay record with the build it belongs to
         r = chk.run('debug%d' % d, exes[d], per, args=['--probe-debug', str(d)], timeout=600)
         total += r.counts.get('cells', 0)
+        chk.samples += r.samples[2:4] if len(r.samples) >= 4 else r.samples[:2]     # a couple of real cells from every build
         clean = clean and not r.truncated and not r.hangs
     want = ncells * len(DEBUGS)
     chk.rule = ('one case = one cell (compile-time DEBUG of the probe translation unit, runtime level, silent flag, macro) of the full matrix '
